@@ -151,7 +151,11 @@ func (c *Conn) Write(b []byte) (int, error) {
 	}
 	if c.side == 0 && p.n != nil && strings.HasPrefix(p.id, "proxy/") {
 		// the proxy put request bytes on the wire to a target
-		p.n.H.Add(Event{Kind: "net.write", Target: string(p.connTarget()), Obj: p.id, N: len(b), Req: requestIDIn(b)})
+		rid := requestIDIn(b)
+		p.n.H.Add(Event{Kind: "net.write", Target: string(p.connTarget()), Obj: p.id, N: len(b), Req: rid})
+		if rid != "" && p.n.onProxyWrite != nil {
+			p.n.onProxyWrite(rid)
+		}
 	}
 	l := p.link[c.side]
 	data := append([]byte(nil), b...)
@@ -269,6 +273,7 @@ type Net struct {
 	nextPort  int
 	connSeq   map[string]int
 	onClose   func(c *Conn, reset bool)
+	onProxyWrite func(rid string)
 	H         *History
 	S         *Sim
 }
